@@ -1,7 +1,7 @@
 (* C06 proofs, part 3: the invariants of Proofs/C06.v restated for the result of [assign]. *)
 From Coq Require Import ZArith List Bool Lia Permutation.
 Import ListNotations.
-From SCMO Require Import Lib.Val Model.C06 Proofs.C06 Proofs.C06_dup.
+From SCMO Require Import Lib.Val Model.C06 Proofs.C06_shape Proofs.C06 Proofs.C06_dup.
 Open Scope Z_scope.
 
 Definition normal (m : mol) : bool := m_kind m =? 0.
@@ -85,14 +85,10 @@ Lemma fkeyb_meaning c g x : exact_site c ->
   (fkeyb c g x = true <-> f_cell g = f_cell x /\ f_strand g = f_strand x /\ f_contig g = f_contig x /\
                           f_site g = f_site x /\ f_umi g = f_umi x).
 Proof.
-  intros He. unfold fkeyb. rewrite andb_true_iff, !zs_eqb_eq. unfold key.
-  destruct He as [E1|[E2 Er]].
-  - rewrite E1. cbn. split.
-    + intros [Hk Hu]. inversion Hk. auto.
-    + intros (-> & -> & -> & -> & ->). auto.
-  - rewrite E2, Er. cbn. split.
-    + intros [Hk Hu]. inversion Hk. auto.
-    + intros (-> & -> & -> & -> & ->). auto.
+  intros He. unfold fkeyb. rewrite andb_true_iff, !zs_eqb_eq.
+  assert (Hk : key c g = key c x <-> f_strand g = f_strand x /\ f_contig g = f_contig x /\ f_site g = f_site x /\ f_cell g = f_cell x)
+    by (destruct He as [E1|[E2 Er]]; [now apply key_nla|now apply key_chic0]).
+  rewrite Hk. tauto.
 Qed.
 
 Lemma exact_main c frags out : c_d c = 0 -> exact_site c -> c_cap c = None -> assign c frags = Some out ->
@@ -104,7 +100,7 @@ Lemma exact_main c frags out : c_d c = 0 -> exact_site c -> c_cap c = None -> as
   (forall m, In m out -> normal m = false -> exists f, m_frags m = [f] /\ f_valid f = false).
 Proof.
   intros Hd He Hcap H. cbn zeta.
-  assert (Hb : cap_bad c = false) by (unfold cap_bad; now rewrite Hcap).
+  assert (Hb : cap_bad c = false) by (rewrite cap_bad_shape; now rewrite Hcap).
   pose proof H as H0. destruct (normal_parts _ _ _ H) as [(_ & ->)|(Hb' & _)]; [|congruence].
   destruct (exact_fold c frags Hd He Hcap) as [(Hcl & Hnd & Hcov) Hk2].
   split; [|split; [|split]]; try assumption.
